@@ -3,6 +3,7 @@ package main
 import (
 	"encoding/json"
 	"fmt"
+	"strconv"
 	"strings"
 	"time"
 
@@ -30,10 +31,13 @@ var aggrGroupExprs = []orderField{
 
 var aggrArgs = []struct{ expr, typ string }{
 	{"strlen(value)", "int"}, {"strlen(key) * 2", "int"}, {"int(value)", "int"}, {"float(value)", "float"}, {"strlen(value) * 0.5", "float"},
+	// text that reads as an integer for some pairs and as a float for others (sum/avg/count only:
+	// the property speaks of integer- or float-valued arguments; min/max over a MIXED group is left out)
+	{"value", "mixed"},
 }
 
 func aggrStore(r *Rand) []KV {
-	pool := []KV{{"a", "bc"}, {"ab", "c"}, {"abc", ""}, {"a1", "2"}, {"a12", "2"}, {"b", "12"}, {"b1", "2"}, {"ba", "12"}, {"k1", "1"}, {"k12", "21"}, {"k2", "1"}, {"k21", "c"}, {"l", "7"}, {"m", "-3"}}
+	pool := []KV{{"a", "bc"}, {"ab", "c"}, {"abc", ""}, {"a1", "2"}, {"a12", "2"}, {"b", "12"}, {"b1", "2"}, {"ba", "12"}, {"k1", "1"}, {"k12", "21"}, {"k2", "1"}, {"k21", "c"}, {"l", "7"}, {"m", "-3"}, {"p1", "0.5"}, {"p2", "1.5"}, {"p3", "-0.25"}}
 	n := r.Intn(len(pool) + 1)
 	perm := make([]int, len(pool))
 	for i := range perm {
@@ -94,11 +98,16 @@ func runAGGR(e *Env) (*Summary, error) {
 					}
 				}
 				needInt := false
+				needFloat := false
 				na := 1 + r.Intn(3)
 				var specs []aggrSpec
 				for i := 0; i < na; i++ {
 					a := pick(r, aggrArgs)
 					kind := pick(r, []string{"count", "sum", "min", "max", "avg", "concat", "arrayagg"})
+					if a.typ == "mixed" {
+						kind = pick(r, []string{"sum", "avg", "sum"})
+						needFloat = true
+					}
 					if strings.Contains(a.expr, "(value)") && (strings.HasPrefix(a.expr, "int") || strings.HasPrefix(a.expr, "float")) {
 						needInt = true
 					}
@@ -121,6 +130,9 @@ func runAGGR(e *Env) (*Summary, error) {
 					specs = append(specs, sp)
 				}
 				where := pick(r, []string{"key >= ''", "key ^= 'a' | key ^= 'b' | key ^= 'k'", "value != 'c'"})
+				if needFloat {
+					where = "is_float(value)"
+				}
 				if needInt {
 					where = "is_int(value)"
 				}
@@ -269,6 +281,16 @@ func aggrExpect(sp aggrSpec, rows [][]any, c int) string {
 			items = append(items, x)
 		case []byte:
 			items = append(items, string(x))
+			if sp.kind == "sum" || sp.kind == "avg" {
+				// text argument: an integer if it reads as one, otherwise a float (documented conversion)
+				if iv, err := strconv.ParseInt(string(x), 10, 64); err == nil {
+					isum += iv
+					fsum += float64(iv)
+				} else if fv, err := strconv.ParseFloat(string(x), 64); err == nil {
+					isFloat = true
+					fsum += fv
+				}
+			}
 		default:
 			items = append(items, toStr(v))
 		}
